@@ -25,6 +25,15 @@ CHECKS = {
          "Bounded: 3 modules (MAIN, A, B), 3 rule names, patterns *, r*, *a, exact; <=3 declarations; graph cut at 3-4 ops; two "
          "re-export defects are listed known findings matched by signature; TLC and the harness projection are trusted.",
          "TLA+ state-machine spec, TLC state-graph dump replayed on the real object (transition cover + all short histories + walks)"),
+ "C08": ("model_checking",
+         "TLC checks on the bounded model that the as-built ordered cascade refines the declarative greatest-supported-subset "
+         "retraction and that the ideal spec satisfies the statement (support invariant, explicit facts leave only by their own "
+         "retraction, a retraction removes only facts left unsupported); every transition of the dumped lock-step graph, all "
+         "short histories and seeded walks to 10 ops are replayed on the real IncrementalEngine + TMS.",
+         "DESIGN.md §4 C08",
+         "Bounded: 5 handles, <=2-3 premises, <=4-5 justifications, graph cut at 7-8 ops (walks to 10); premises live when "
+         "recorded; TLC and the harness projection are trusted.",
+         "TLA+ lock-step ideal/as-built spec, TLC state-graph dump replayed on the real object (transition cover + all short histories + walks)"),
 }
 
 NOT_YET = "check not built yet in this round (see DESIGN.md §9 build order); no claim is made"
